@@ -367,3 +367,115 @@ pub fn run_decode_probe(ctx: &mut Ctx, args: &[String]) {
         Err(_) => json!("PANIC"),
     });
 }
+
+/// `decode <which> <hex>`: run one checked decoder of the real build on concrete bytes
+/// (replay of bounded-model-checking counterexamples); reports Ok / Err / PANIC.
+pub fn run_decode(ctx: &mut Ctx, args: &[String]) {
+    use dusk_plonk::verif as hk;
+    let which = args[0].clone();
+    let h = args.get(1).cloned().unwrap_or_default();
+    let bytes: Vec<u8> = (0..h.len() / 2).map(|i| u8::from_str_radix(&h[2 * i..2 * i + 2], 16).unwrap()).collect();
+    let r = std::panic::catch_unwind(std::panic::AssertUnwindSafe(|| -> Result<String, String> {
+        let e = |x: Error| format!("{:?}", x);
+        match which.as_str() {
+            "commit_key_from_raw_var_bytes_one_point" => hk::commit_key_from_raw_var_bytes(&bytes).map(|_| "ok".into()).map_err(e),
+            "commit_key_from_slice_two_points" => hk::commit_key_from_slice(&bytes).map(|_| "ok".into()).map_err(e),
+            "opening_key_from_slice" => hk::opening_key_from_slice(&bytes).map(|_| "ok".into()).map_err(e),
+            "proof_from_bytes" => {
+                let mut b = [0u8; 1008];
+                b.copy_from_slice(&bytes[..1008]);
+                Proof::from_bytes(&b).map(|_| "ok".into()).map_err(|x| format!("{:?}", x))
+            }
+            "polynomial_from_slice" => hk::polynomial_from_slice(&bytes).map(|n| format!("{n}")).map_err(e),
+            "evaluations_from_slice" => hk::evaluations_from_slice(&bytes).map(|n| format!("{n}")).map_err(e),
+            "prover_try_from_bytes_header" => Prover::try_from_bytes(&bytes).map(|_| "ok".into()).map_err(e),
+            "verifier_try_from_bytes_header" => Verifier::try_from_bytes(&bytes).map(|_| "ok".into()).map_err(e),
+            _ => Err("unknown decoder".into()),
+        }
+    }));
+    ctx.out_json("outcome", match r {
+        Ok(Ok(s)) => json!(format!("Ok({s})")),
+        Ok(Err(e)) => json!(format!("Err({e})")),
+        Err(_) => json!("PANIC"),
+    });
+}
+
+// ---------------------------------------------------------------------------
+// Prover with symbolic WITNESS values (C05): satisfying family, one violated row,
+// one broken copy constraint
+// ---------------------------------------------------------------------------
+
+#[derive(Clone)]
+pub struct WitnessCircuit {
+    pub scenario: usize,
+    pub a: BlsScalar,
+    pub b: BlsScalar,
+    pub e: BlsScalar,
+}
+
+impl Default for WitnessCircuit {
+    fn default() -> Self {
+        WitnessCircuit { scenario: 0, a: BlsScalar::from(3u64), b: BlsScalar::from(5u64), e: BlsScalar::zero() }
+    }
+}
+
+impl Circuit for WitnessCircuit {
+    fn circuit(&self, c: &mut Composer) -> Result<(), Error> {
+        // compiled shape (scenario 0): m = a*b ; public input = m ; s = a + b ; t = s*a
+        let a = c.append_witness(self.a);
+        let b = c.append_witness(self.b);
+        let m = c.gate_mul(Constraint::new().mult(1).a(a).b(b));
+        c.assert_equal_constant(m, BlsScalar::zero(), Some(self.a * self.b));
+        let s = c.gate_add(Constraint::new().left(1).right(1).a(a).b(b));
+        // scenario 2: the second use of `a` is wired to a DIFFERENT witness (value e):
+        // every row can still hold, the compiled copy constraint a == a' is broken
+        let a2 = if self.scenario == 2 { c.append_witness(self.e) } else { a };
+        let t = c.gate_mul(Constraint::new().mult(1).a(s).b(a2));
+        if self.scenario == 2 {
+            // keep the witness table aligned with the compiled circuit: no extra rows
+            let _ = t;
+        }
+        if self.scenario == 1 {
+            // one row violated: the product wire gets an unrelated value
+            c.verif_set_witness(m, self.e);
+        }
+        Ok(())
+    }
+}
+
+/// `prove_w <scenario>`: compile the concrete default instance, prove a SYMBOLIC instance
+/// (witnesses a, b, and e free), symbolic SRS secret, concrete blinders, scripted challenges.
+pub fn run_prove_w(ctx: &mut Ctx, args: &[String]) {
+    use crate::kernels::{g1_dlog, ScriptedRng};
+    let scenario: usize = args[0].parse().unwrap();
+    #[cfg(feature = "sym")]
+    {
+        dusk_bls12_381::sym::set_transcript_symbolic(true);
+        let script: Vec<(String, BlsScalar)> =
+            PROVER_CHALLENGES.iter().map(|l| (l.to_string(), seeded(ctx.seed, l))).collect();
+        dusk_bls12_381::sym::set_challenge_script(script);
+    }
+    let mut srs_rng = ScriptedRng::with_prefix(ctx, "srs", 8);
+    let pp = PublicParameters::setup(32, &mut srs_rng).expect("setup");
+    let (prover, verifier) =
+        Compiler::compile_with_circuit(&pp, b"verif-prove-w", &WitnessCircuit::default()).expect("compile");
+    let inst = WitnessCircuit { scenario, a: ctx.var("wa"), b: ctx.var("wb"), e: ctx.var("we") };
+    let all = scenario != 0;
+    crate::kernels::with_paths(ctx, "prove", all, move |ctx| {
+        let mut rng = crate::gadgets::ReplayRng(ctx.seed ^ 0xb11d);
+        match prover.prove(&mut rng, &inst) {
+            Ok((proof, pis)) => {
+                let v = verifier.verify(&proof, &pis);
+                json!({"proved": true, "verified": format!("{:?}", v),
+                       "pis": pis.iter().map(|p| ctx.scalar_json(p)).collect::<Vec<_>>()})
+            }
+            Err(e) => json!({"proved": false, "error": format!("{:?}", e)}),
+        }
+    });
+    ctx.meta.insert(
+        "functions".into(),
+        json!(["Prover::prove", "Composer::prove", "Permutation::compute_permutation_vec", "quotient_poly::compute",
+               "quotient_poly::compute_circuit_satisfiability_equation", "quotient_poly::compute_permutation_checks",
+               "linearization_poly::compute", "Verifier::verify"]),
+    );
+}
